@@ -116,6 +116,9 @@ def rule_accesspath(P) -> RuleResult:
             for k in ('paths', 'calls', 'keys'):
                 if sorted(want.get(k, [])) != got[k]:
                     diffs.append(f'{k}: reads {got[k]}, the column is defined as {sorted(want.get(k, []))}')
+            if 'consts' in want and sorted(want['consts']) != got['consts']:
+                diffs.append(f'values not read from the ledger: it can give {got["consts"] or "none"}, the column is defined with '
+                             f'{sorted(want["consts"]) or "none"} (NULL where the ledger has nothing, never a made-up value)')
             if diffs:
                 res.fail(construct, 'accesspath', f'column `{name}` of {tn} ({want["meaning"]}) no longer presents that attribute: '
                          + '; '.join(diffs), loc(c.impl))
@@ -406,26 +409,63 @@ def rule_metarewrite(P) -> RuleResult:
                 break
         if okc:
             res.ok({'node': cname, 'cases': 5, 'semantics': 'stored value if present else default'})
-    # open/close selection from the (open, close) pair; NULL default
+    # open/close selection from the (open, close) pair; NULL default: on terms
+    from ..symex import Sym as _S, T as _T, Engine as _E, show as _sh
     qe = P.module(QE)
-    for fname, idx in (('open_date', 0), ('close_date', 1), ('open_meta', 0)):
+    CTX, ACC, KEY, OPEN, CLOSE = _S('CTX'), _S('ACC'), _S('KEY'), _S('OPEN'), _S('CLOSE')
+    directory = _T('attr', (_T('item', (_T('attr', (CTX, 'tables')), 'accounts')), 'accounts'))
+    cases = [('open_date', False, lambda o, c: _T('attr', (o, 'date')) if o is not None else None, 0),
+             ('close_date', False, lambda o, c: _T('attr', (c, 'date')) if c is not None else None, 1),
+             ('open_meta', False, lambda o, c: _T('attr', (o, 'meta')) if o is not None else None, 0),
+             ('open_meta', True, lambda o, c: _T('call', (_sh(_T('attr', (_T('attr', (o, 'meta')), 'get'))), (KEY,), ())) if o is not None else None, 0)]
+    for fname, with_key, want_f, idx in cases:
         fs = qe.toplevel_funcs.get(fname)
         if not fs:
             raise AnalysisError(f'anchor vanished: query_env.{fname}')
         f = fs[-1]
-        unp = [n for n in ast.walk(f.node) if isinstance(n, ast.Assign) and isinstance(n.targets[0], ast.Tuple)
-               and len(n.targets[0].elts) == 2 and '.accounts.get(' in unparse(n.value)]
-        if len(unp) != 1:
-            res.fail(f.fq, 'metarewrite:pair', f'{fname} must look the account up in the (open, close) directory with a NULL default', loc(f))
-            continue
-        names = [unparse(x) for x in unp[0].targets[0].elts]
-        used = names[idx]
-        other = names[1 - idx]
-        body_src = unparse(ast.Module(body=[s for s in f.node.body if s is not unp[0]], type_ignores=[]))
-        if used == '_' or not re.search(r'\b%s\b' % re.escape(used), body_src) or (other != '_' and re.search(r'\b%s\.' % re.escape(other), body_src)):
-            res.fail(f.fq, 'metarewrite:pair-index', f'{fname} must use the {"open" if idx == 0 else "close"} directive (element {idx} of the pair)', loc(f))
-        elif 'NONENONE' not in unparse(unp[0].value) and '(None, None)' not in unparse(unp[0].value):
-            res.fail(f.fq, 'metarewrite:default', f'{fname} of an unknown account must be NULL (default pair of Nones)', loc(f))
-        else:
-            res.ok({'function': fname, 'uses': f'element {idx} of (open, close)'})
+        if with_key and len(f.params) < 3:
+            raise AnalysisError(f'{f.fq}: no key parameter')
+        good = True
+        for scen, pair in (('both', (OPEN, CLOSE)), ('open-only', (OPEN, None)), ('unknown', None)):
+            looked = []
+
+            def on_call(fn, fv, rc, args, kw, ex, node, _pair=pair):
+                if rc == directory and str(fn).endswith('.get') and args[:1] == (ACC,):
+                    looked.append(1)
+                    if _pair is None:
+                        return args[1] if len(args) > 1 else None
+                    return _T('tuple', _pair)
+                return NotImplemented
+
+            def on_item(base, i, ex, _pair=pair):
+                if base == directory and i == ACC:
+                    looked.append(1)
+                    if _pair is None:
+                        from ..symex import Raise as _R
+                        raise _R('KeyError', (ACC,))
+                    return _T('tuple', _pair)
+                return NotImplemented
+            env = {f.params[0]: CTX, f.params[1]: ACC}
+            if with_key:
+                env[f.params[2]] = KEY
+            want = want_f(*pair) if pair is not None else None
+            for p in _E(P, on_call=on_call, on_item=on_item).paths(f, env):
+                if not good:
+                    break
+                if p.decisions:
+                    raise AnalysisError(f'{f.fq}: undecided test `{_sh(p.decisions[0][0])[:60]}` ({scen})')
+                if not looked:
+                    good = False
+                    res.fail(f.fq, 'metarewrite:pair', f'{fname} must look the account up in the (open, close) directory with a NULL default', loc(f))
+                elif p.outcome != 'return' or p.value != want:
+                    good = False
+                    got = _sh(p.value)[:60] if p.outcome == 'return' else f'{p.outcome} {p.value[0] if p.value else ""}'
+                    if pair is None:
+                        res.fail(f.fq, 'metarewrite:default', f'{fname} of an unknown account must be NULL (default pair of Nones); it gives {got}', loc(f))
+                    else:
+                        res.fail(f.fq, 'metarewrite:pair-index', f'{fname}{"(key)" if with_key else ""} must use the {"open" if idx == 0 else "close"} '
+                                 f'directive (element {idx} of the pair): with {"both directives" if scen == "both" else "no close directive"} it must '
+                                 f'give {_sh(want)}, gives {got}', loc(f))
+        if good:
+            res.ok({'function': fname, 'with_key': with_key, 'uses': f'element {idx} of (open, close)', 'scenarios': 3})
     return res
